@@ -60,6 +60,23 @@ def main(p):
     rng = np.random.default_rng(11)
     bad = []
     print("params:", json.dumps(p))
+    if p["kind"] == "finite":
+        # the scale estimate (and with it every z-score) of finite data must be finite: many lanes, smooth ones included
+        from sigpyproc.core import stats
+        import warnings
+        n = max(int(p["n"]), 8)
+        for trial in range(400):
+            x = rng.normal(size=n) if trial % 2 else np.cumsum(rng.normal(size=n))
+            with warnings.catch_warnings():
+                warnings.simplefilter("ignore")
+                sc = stats.estimate_scale(x, p["method"])
+                z = stats.estimate_zscore(x.astype(np.float32), "median", p["method"], 0).data
+            if not np.all(np.isfinite(np.atleast_1d(sc))) or not np.all(np.isfinite(z)):
+                print("params:", json.dumps(p))
+                print(f"MISMATCH: estimate_scale({p['method']}) = {sc} / z-scores {np.asarray(z).tolist()} for finite data {x.tolist()}")
+                return 1
+        print("params:", json.dumps(p))
+        return 0
     if p["kind"] in ("equiv", "zequiv"):
         return equivariance(p, rng)
     shape = tuple(p["shape"])
